@@ -62,7 +62,9 @@ def generate(ctx):
     for _ in range(700 if th else 60):
         yield {"part": "vp", "n": [rng.randint(0, 6) for _ in range(3)], "seed": rng.randrange(1 << 30),
                "costs": sorted(rng.choice([0.01, 0.1, 0.5, 1.0, 2.0, 5.0, 50.0]) for _ in range(3)),
-               "grid": rng.random() < 0.5}
+               "grid": rng.random() < 0.5,
+               # spike times as they come out of torch.nonzero (integer step indices) or in single precision
+               "times_dtype": rng.choice(["float64", "float64", "float32", "int64", "int32"])}
 
 
 def run_case(ctx, desc):
@@ -337,13 +339,21 @@ def _vp_ref(a, b, q):
 def _vp(ctx, desc):
     g = np.random.default_rng(desc["seed"])
     trains = []
+    tdt = {"float64": torch.float64, "float32": torch.float32, "int64": torch.int64, "int32": torch.int32}[desc.get("times_dtype", "float64")]
     for n in desc["n"]:
-        t = np.sort(g.integers(0, 40, size=n).astype(np.float64) * 0.5 if desc["grid"] else g.uniform(0, 20, size=n))
+        if not tdt.is_floating_point:
+            t = np.sort(g.integers(0, 40, size=n).astype(np.float64))
+        else:
+            t = np.sort(g.integers(0, 40, size=n).astype(np.float64) * 0.5 if desc["grid"] else g.uniform(0, 20, size=n))
+        if tdt == torch.float32:
+            t = t.astype(np.float32).astype(np.float64)
         trains.append(t)
-    a, b, c = (torch.tensor(t, dtype=torch.float64) for t in trains)
+    a, b, c = (torch.tensor(t, dtype=torch.float64).to(tdt) for t in trains)
+    if tdt != torch.float64:
+        ctx.count("vp_cases_with_other_spike_time_dtypes")
     costs = desc["costs"]
     d = inferno.victor_purpura_pair_dist
-    ctx.case(f"vp/n{min(desc['n'][0], 3)}-{min(desc['n'][1], 3)}-{min(desc['n'][2], 3)}/grid{int(desc['grid'])}")
+    ctx.case(f"vp/n{min(desc['n'][0], 3)}-{min(desc['n'][1], 3)}-{min(desc['n'][2], 3)}/grid{int(desc['grid'])}/{desc.get('times_dtype', 'float64')}")
     ctx.count("vp_cases")
     eps = 2e-5 * (sum(desc['n']) + 1)  # a float cost makes the dynamic programme run in float32
     try:
